@@ -12,9 +12,190 @@ RULE = ("exhaustive: all shape pairs (h1,w1),(h2,w2) in 0..5 x 0..5 (1296) x 3 i
 def _norm(s):
     return re.sub(r"err dotshape \d+ \d+", "err dotshape", s)
 
+
+# --- the one facet the statement leaves open -------------------------------------------------------------
+# "a non-conforming 1x1 left operand acts as a scalar (on the right it may act as a scalar OR BE REJECTED)".
+# The model (= today's code) scales.  An implementation that rejects exactly those pairs is equally inside the
+# statement, so the comparison accepts, for a product X . [[s]] with X not 1x1 and X.width != 1 (and only there),
+# either the model's answer or the rejection (checked product: the shape error; operator: the empty matrix the
+# operators substitute for every refused product; law requests: the side of the law that meets such a product
+# first may be the shape error).  Everything else - conforming pairs incl. (m x 1).(1 x 1), the 1x1 LEFT operand,
+# every other non-conforming pair, every value - is compared as before.
+
+def _mats(req):
+    """(cmd, [(h, w), ...]) - the shapes of the matrices of a product / law request"""
+    t = req.split()
+    cmd = t[0]
+    k = 3 if cmd in ("mul", "smul", "sdiv") else 2
+    shapes = []
+    try:
+        while k + 1 < len(t) and len(shapes) < 3:
+            h, w = int(t[k]), int(t[k + 1])
+            shapes.append((h, w))
+            k += 2 + h * w
+    except ValueError:
+        pass
+    return cmd, shapes
+
+
+def _step(x, y):
+    """shape of the model's checked product of shapes x . y -> (shape or None, optional?)"""
+    if x == (1, 1):
+        return y, False
+    if y == (1, 1):
+        return x, x[1] != 1           # non-conforming 1x1 right operand: scaling or rejection, both allowed
+    if x[1] == y[0]:
+        return (x[0], y[1]), False
+    return None, False
+
+
+def _chain_optional(steps):
+    """steps: list of callables shape-so-far -> (x, y); True when the chain meets an optional product before any error"""
+    cur = None
+    for mk in steps:
+        x, y = mk(cur)
+        cur, opt = _step(x, y)
+        if opt:
+            return True
+        if cur is None:
+            return False
+    return False
+
+
+# --- float products: "float entries (rounding-bound oracle)" ----------------------------------------------
+# Every entry of a conforming float product obeys, for ANY order of summation of the k rounded products,
+#     |fl - sum_k a_ik b_kj|  <=  (k+1) * 2^-52 * sum_k |a_ik| |b_kj|          (f32: 2^-23)
+# (SV.Props.C11Rounding.dot_entry_rounding_binary64).  S (harness/src/c11.rs `Grid::is_product`) judges the
+# implementation's answer against this bound; K accepts two answers that differ by at most twice the bound (model
+# and implementation each obey it; computed here in exact rational arithmetic from the request).  Integer products,
+# shapes, errors, the operator-vs-checked-product agreement and the scalar forms stay exact.
+
+def _fval(tok):
+    import struct
+    return struct.unpack("<d", struct.pack("<Q", int(tok)))[0]
+
+
+def _float_product_request(req):
+    """for `dot|mul f|g A B` with conforming shapes: (A, B) as lists of rows of floats, else None"""
+    t = req.split()
+    if len(t) < 2 or t[0] not in ("dot", "mul") or t[1] not in ("f", "g"):
+        return None
+    k = 3 if t[0] == "mul" else 2
+    mats = []
+    try:
+        for _ in range(2):
+            h, w = int(t[k]), int(t[k + 1])
+            vals = [_fval(x) for x in t[k + 2:k + 2 + h * w]]
+            if len(vals) != h * w:
+                return None
+            mats.append((h, w, vals))
+            k += 2 + h * w
+    except (ValueError, IndexError):
+        return None
+    (h1, w1, _), (h2, w2, _) = mats
+    if w1 != h2:
+        return None
+    return mats
+
+
+def _answer_entries(ans):
+    """`[ok] h w f<bits>...` -> (h, w, [bits]) or None"""
+    t = ans.split()
+    if t and t[0] == "ok":
+        t = t[1:]
+    try:
+        h, w = int(t[0]), int(t[1])
+        ent = [int(x[1:]) for x in t[2:] if x.startswith("f")]
+    except (ValueError, IndexError):
+        return None
+    if len(ent) != len(t) - 2 or len(ent) != h * w:
+        return None
+    return h, w, ent
+
+
+def _bounds(req, mats):
+    """per entry (row-major): (exact sum, bound) as Fractions; None when an operand entry is not finite"""
+    from fractions import Fraction
+    import math
+    (h1, w1, a), (h2, w2, b) = mats
+    if not all(math.isfinite(x) for x in a + b):
+        return None
+    eps = Fraction(1, 2 ** 52) if req.split()[1] == "f" else Fraction(1, 2 ** 23)
+    tiny = Fraction(1, 2 ** 1074) if req.split()[1] == "f" else Fraction(1, 2 ** 149)
+    fa = [Fraction(x) for x in a]
+    fb = [Fraction(x) for x in b]
+    out = []
+    for i in range(h1):
+        for j in range(w2):
+            ex = Fraction(0)
+            sc = Fraction(0)
+            for l in range(w1):
+                p = fa[i * w1 + l] * fb[l * w2 + j]
+                ex += p
+                sc += abs(p)
+            out.append((ex, (w1 + 1) * eps * sc + (w1 + 1) * tiny))
+    return out
+
+
+def _float_product_close(req, ni, nm):
+    """both answers are the product of the request up to the rounding bound of the statement"""
+    from fractions import Fraction
+    import math
+    mats = _float_product_request(req)
+    if mats is None:
+        return False
+    ei, em = _answer_entries(ni), _answer_entries(nm)
+    if ei is None or em is None or ei[:2] != em[:2] or ni.split()[0] != nm.split()[0]:
+        return False
+    if (ei[0], ei[1]) != (mats[0][0], mats[1][1]):
+        return False
+    bd = _bounds(req, mats)
+    if bd is None:
+        return False
+    for x, y, (_, bound) in zip(ei[2], em[2], bd):
+        if x == y:
+            continue
+        fx, fy = _fval(x), _fval(y)
+        if not (math.isfinite(fx) and math.isfinite(fy)):
+            return False
+        if abs(Fraction(fx) - Fraction(fy)) > 2 * bound:
+            return False
+    return True
+
+
 def compare(req, impl, model):
     from __main__ import default_compare
-    return default_compare(req, _norm(impl), _norm(model))
+    ni, nm = _norm(impl), _norm(model)
+    d = default_compare(req, ni, nm)
+    if d is None:
+        return None
+    if _float_product_close(req, ni, nm):
+        return None
+    cmd, sh = _mats(req)
+    if cmd in ("dot", "mul") and len(sh) == 2:
+        _, opt = _step(sh[0], sh[1])
+        if opt and ni == ("err dotshape" if cmd == "dot" else "0 0"):
+            return None
+        return d
+    if cmd in ("assoc", "tprod") and " R " in ni and " R " in nm and ni.startswith("L ") and nm.startswith("L "):
+        if cmd == "assoc" and len(sh) == 3:
+            a, b, c = sh
+            lopt = _chain_optional([lambda _: (a, b), lambda ab: (ab, c)])
+            ropt = _chain_optional([lambda _: (b, c), lambda bc: (a, bc)])
+        elif cmd == "tprod" and len(sh) == 2:
+            a, b = sh
+            lopt = _chain_optional([lambda _: (a, b)])
+            ropt = _chain_optional([lambda _: ((b[1], b[0]), (a[1], a[0]))])
+        else:
+            return d
+        il, ir = ni[2:].split(" R ", 1)
+        ml, mr = nm[2:].split(" R ", 1)
+        for side, x, y, opt in (("L", il, ml, lopt), ("R", ir, mr, ropt)):
+            dd = default_compare(req, x, y)
+            if dd is not None and not (opt and x == "err dotshape"):
+                return f"{side} side: {dd}"
+        return None
+    return d
 
 def nontrivial(req, model):
     t = model.split()
